@@ -278,6 +278,9 @@ def run(ctx) -> Result:
         check_session(s, model, res, f"session-{seed}-{i}")
         if len([p for p in res.problems if p.kind != "impl" or not p.finding]) > 5:
             break
+    # corpus first: witness of every listed finding, replayed on the implementation
+    s = vtime.run(lambda loop: memrun.scripted_session(memrun.load_corpus("C01-F1.json")), budget=200_000)
+    check_session(s, model, res, "corpus/C01-F1.json")
     for i in range(20 if deep else 5):
         rng = Rng(seed, f"c01/ill/{i}")
         s = vtime.run(lambda loop, r=rng: ill_behaved(r), budget=200_000)
